@@ -37,9 +37,15 @@ func Main(prop string, scenarios func(tier string) []*vsched.Scenario, budget Bu
 	replay := flag.String("replay", "", "replay file")
 	list := flag.Bool("list", false, "list scenarios")
 	only := flag.String("only", "", "substring filter on scenario names")
+	nocache := flag.Bool("nocache", os.Getenv("VERIF_NOCACHE") != "", "disable the happens-before state cache (self-check)")
 	flag.Parse()
 	tier := lib.Tier()
 	scs := scenarios(tier)
+	if *nocache {
+		for _, s := range scs {
+			s.NoCache = true
+		}
+	}
 	if *list {
 		for i, s := range scs {
 			fmt.Println(i, s.Name, "bound", s.Bound)
@@ -94,7 +100,7 @@ func Main(prop string, scenarios func(tier string) []*vsched.Scenario, budget Bu
 		}(ji, j)
 	}
 	wg.Wait()
-	var execs, steps, nodes int64
+	var execs, steps, nodes, states, pruned int64
 	maxDepth, maxThreads, outcomes := 0, 0, 0
 	racy := map[string]bool{}
 	pairs := map[string]bool{}
@@ -109,6 +115,8 @@ func Main(prop string, scenarios func(tier string) []*vsched.Scenario, budget Bu
 		execs += st.Execs
 		steps += st.Steps
 		nodes += st.Nodes
+		states += st.States
+		pruned += st.Pruned
 		outcomes += st.Outcomes
 		if st.MaxDepth > maxDepth {
 			maxDepth = st.MaxDepth
@@ -124,7 +132,7 @@ func Main(prop string, scenarios func(tier string) []*vsched.Scenario, budget Bu
 		}
 		ps := map[string]interface{}{"scenario": st.Scenario, "bound_kind": st.BoundKind, "bound_completed": st.BoundDone, "bound_asked": st.BoundAsked,
 			"executions": st.Execs, "steps": st.Steps, "schedule_tree_nodes": st.Nodes, "max_choice_depth": st.MaxDepth, "threads": st.MaxThreads,
-			"distinct_outcomes": st.Outcomes, "racy_fixpoint_passes": st.Passes, "wall_s": round2(st.WallS)}
+			"distinct_outcomes": st.Outcomes, "hb_states": st.States, "pruned_at_known_state": st.Pruned, "racy_fixpoint_passes": st.Passes, "wall_s": round2(st.WallS)}
 		if st.Deadline {
 			ps["deadline_hit"] = true
 			r.NotExhaustive(fmt.Sprintf("%s: internal deadline reached; bound %d of %d completed", st.Scenario, st.BoundDone, st.BoundAsked))
@@ -145,12 +153,17 @@ func Main(prop string, scenarios func(tier string) []*vsched.Scenario, budget Bu
 				"how": "./vcheck " + prop + " " + tier + " -replay <this file>"})
 		}
 	}
-	r.Cov["states"] = nodes
+	if states == 0 {
+		states = nodes
+	}
+	r.Cov["states"] = states
+	r.Cov["schedule_tree_nodes"] = nodes
+	r.Cov["executions_cut_at_known_state"] = pruned
 	r.Cov["transitions"] = steps
 	r.Cov["traces_validated_against_impl"] = execs
 	r.Cov["evaluations"] = execs
 	r.Cov["distinct_nontrivial"] = outcomes
-	r.Cov["rule"] = "states = distinct nodes of the explored schedule tree (scheduling decisions reached through distinct choice prefixes), transitions = scheduling steps executed on the instrumented real code, traces = complete executions; distinct_nontrivial = distinct harness-visible outcomes (event log + terminal state) summed over scenarios"
+	r.Cov["rule"] = "states = distinct happens-before states at scheduling choice points (state-cache entries, summed over scenarios and bounds), schedule_tree_nodes = choice points reached through distinct prefixes, transitions = scheduling steps executed on the instrumented real code, traces = complete executions; distinct_nontrivial = distinct harness-visible outcomes (event log + terminal state) summed over scenarios"
 	r.Cov["samples"] = samples
 	r.Cov["scenarios"] = perScen
 	r.Cov["max_threads"] = maxThreads
